@@ -1761,6 +1761,48 @@ MUTANTS = [
      "R7.6"),
 ]
 
+def _twin_append_verified(src):
+    """instantiate / verify / append moved into a static helper"""
+    src = src.replace(
+        "                    bna = b_cls(pp, **kwargs)\n"
+        "                    if bna.verify_basin():\n"
+        "                        basins.append(bna)\n"
+        "                        break\n",
+        "                    if self._basin_append_verified(basins, b_cls, pp, "
+        "kwargs):\n"
+        "                        break\n", 1)
+    src = src.replace(
+        "                        bnr = b_cls(this_path.parent / pp, **kwargs)\n"
+        "                        if bnr.verify_basin():\n"
+        "                            basins.append(bnr)\n"
+        "                            break\n",
+        "                        if self._basin_append_verified(\n"
+        "                                basins, b_cls, this_path.parent / pp, "
+        "kwargs):\n"
+        "                            break\n", 1)
+    return src.replace(
+        "    def get_measurement_identifier(self):\n",
+        "    @staticmethod\n"
+        "    def _basin_append_verified(basins, b_cls, location, kwargs):\n"
+        "        bn = b_cls(location, **kwargs)\n"
+        "        if bn.verify_basin():\n"
+        "            basins.append(bn)\n"
+        "            return True\n"
+        "        return False\n\n"
+        "    def get_measurement_identifier(self):\n", 1)
+
+
+_TWIN_CANDIDATES = (
+    "            for bn in list(self.basins):\n"
+    "                if basin_type is not None and basin_type != bn.basin_type:\n"
+    "                    # User asked for specific basin type\n"
+    "                    continue\n",
+    "            candidates = (\n"
+    "                bn for bn in list(self.basins)\n"
+    "                if basin_type is None or basin_type == bn.basin_type)\n"
+    "            for bn in candidates:\n")
+
+
 def _twin_origin_helper(src):
     """the two literal definitions built by one module-level helper"""
     a = src.index('                    basin_is_local = ds.format == "hdf5"\n')
@@ -1804,6 +1846,10 @@ def _twin_origin_helper(src):
 
 
 TWINS = [
+    ("file basins appended by a static helper with early return", CORE,
+     _twin_append_verified),
+    ("basin loop over a filtering generator expression", CORE,
+     _TWIN_CANDIDATES),
     ("definitions of the exported dataset built by a helper", EXPORT,
      _twin_origin_helper),
     ("basin_map tuple expanded by a conditional expression", WRITER,
